@@ -12,8 +12,9 @@
    (send_signal(sig), suspend, resume, terminate, kill, nice(v), ionice(cls, v), rlimit(res, limits),
    cpu_affinity(cpus), for every argument).  [effects_of] lists every system call psutil attempted during the
    call (os.kill / setpriority / ioprio_set / prlimit / sched_setaffinity) with the incarnation that received it
-   (None: the kernel answered ESRCH). *)
-From PV Require Import Proc.Spec Proc.Proofs.
+   (None: the kernel answered ESRCH).  Objects also come from process_iter() and from psutil.Popen; a Popen whose
+   child was already gone carries as ghost a negative token (never in the table): it is "not alive" from birth. *)
+From PV Require Import Proc.Spec Proc.Proofs Proc.ProofsIter.
 
 (* the process is gone and the PID belongs to another process: NoSuchProcess, and no system call at all *)
 Theorem C01_no_effect_on_new_owner : forall h o s,
@@ -83,6 +84,66 @@ Theorem C01_delivered_when_alive : forall h o s,
   else outcome_of (run h) (EC (Set_ o s)) = Exc ValueError /\ effects_of (run h) (EC (Set_ o s)) = [].
 Proof. exact delivered_when_alive. Qed.
 Print Assumptions C01_delivered_when_alive.
+
+(* ---- the call taken apart.  [ER o s ks]: the identity probe (_raise_if_pid_reused), then the kernel events
+   [ks] -- the window between psutil's check and its system call --, then the argument checks and the system call.
+   (All theorems above are about the atomic call [EC (Set_ o s)].) *)
+
+(* no kernel event in the window: the two-step call is the atomic call (same answer, same system calls), so
+   every theorem above carries over *)
+Theorem C01_two_step_no_event_between : forall w o s, has_obj w o = true ->
+  outcome_of w (ER o s []) = outcome_of w (EC (Set_ o s))
+  /\ effects_of w (ER o s []) = effects_of w (EC (Set_ o s)).
+Proof. exact race_no_event_between. Qed.
+Print Assumptions C01_two_step_no_event_between.
+
+(* the process gone and the PID taken AT THE TIME OF THE PROBE: NoSuchProcess and no system call, whatever
+   happens afterwards *)
+Theorem C01_two_step_no_effect_on_new_owner : forall h o s ks,
+  wf_hist h = true -> has_obj (run h) o = true ->
+  alive (run h) (g_inc (run h) o) = false ->
+  owner (run h) (obj_pid (run h) o) <> None ->
+  outcome_of (run h) (ER o s ks) = Exc NoSuchProcess /\ effects_of (run h) (ER o s ks) = [].
+Proof. exact race_no_effect_on_new_owner. Qed.
+Print Assumptions C01_two_step_no_effect_on_new_owner.
+
+(* "a delivered request reaches the process the object was created for" with its hypothesis spelled out:
+   no kernel event separates probe and system call ... *)
+Theorem C01_two_step_receiver_is_own_process : forall h o s ks c i,
+  wf_hist h = true -> has_obj (run h) o = true -> ks = [] ->
+  In (c, Some i) (effects_of (run h) (ER o s ks)) ->
+  i = g_inc (run h) o /\ c = intended (obj_pid (run h) o) s.
+Proof. exact race_receiver_own_explicit. Qed.
+Print Assumptions C01_two_step_receiver_is_own_process.
+
+(* ... and WITHOUT that hypothesis the statement is false: the process is reaped and the PID handed out again
+   inside the window, the probe has passed, SIGKILL reaches the new owner (incarnation 1, object made for 0).
+   This is the TOCTOU inherent in PIDs; the property cannot be had for non-atomic calls *)
+Theorem C01_two_step_receiver_refuted :
+  wf_hist (ex_race_hist ++ [ER 0%nat Kill ex_race_window]) = true
+  /\ has_obj (run ex_race_hist) 0 = true
+  /\ g_inc (run ex_race_hist) 0 = 0
+  /\ alive (run ex_race_hist) 0 = true
+  /\ outcome_of (run ex_race_hist) (ER 0%nat Kill ex_race_window) = Val RNone
+  /\ effects_of (run ex_race_hist) (ER 0%nat Kill ex_race_window) = [(SKill 5 9, Some 1)].
+Proof. exact race_receiver_refuted. Qed.
+Print Assumptions C01_two_step_receiver_refuted.
+
+(* what survives any window (any world, any events, well formed or not): at most one system call, and it names
+   exactly the PID of the object and exactly the requested signal/value *)
+Theorem C01_two_step_names_own_pid : forall w o s ks, has_obj w o = true ->
+  effects_of w (ER o s ks) = []
+  \/ exists t, effects_of w (ER o s ks) = [(intended (obj_pid w o) s, t)].
+Proof. exact race_names_own_pid. Qed.
+Print Assumptions C01_two_step_names_own_pid.
+
+(* process_iter(): after ANY history of atomic calls the branch added by b70d950 (replace a cached instance whose
+   _pid_reused is set) is never taken -- the call equals the loop without that branch.  (Every cached object with
+   _pid_reused has its PID in _pids_reused, and those PIDs are dropped from the copy before the loop.) *)
+Theorem C01_process_iter_stale_branch_unreachable : forall h,
+  proc_iter (view_of (run h)) (ms (run h)) = proc_iter_nostale (view_of (run h)) (ms (run h)).
+Proof. exact stale_branch_unreachable. Qed.
+Print Assumptions C01_process_iter_stale_branch_unreachable.
 
 (* the pid attribute of an object is the PID its process was started under, and fits a pid_t *)
 Theorem C01_obj_pid_is_creation_pid : forall h o,
